@@ -44,14 +44,14 @@ def run(ctx):
     big = ctx.tier != "quick"
     g = docgen.Gen(rng)
     texts = []
-    docs = [g.document() for _ in range(3000 if big else 400)]
+    docs = [g.document() for _ in range(10000 if big else 400)]
     corp = [d for _, d in corpus_files()]
     corpus_names = {}
     for n, d in corpus_files():
         texts.append(d)
         corpus_names[d] = n
     pool = [t.encode() for t, _ in docs] + corp
-    for _ in range(150000 if big else 9000):
+    for _ in range(600000 if big else 9000):
         texts.append(docgen.mutate(rng, rng.choice(pool)))
     for d in rng.sample(pool, 60 if big else 12):
         for i in range(len(d) + 1):
